@@ -238,7 +238,7 @@ def check_gaussian_merge(rng):
                 if err2 > 1e-2 and err2 > 0.5 * err:
                     bad(f"{label}: compiled program gives different reduced states on the fock backend (max difference {err:.3g} at cutoff {cutoff}, {err2:.3g} at cutoff {cutoff + 4})")
         except Exception as e:
-            fid = "F34" if "not unitary" in str(e) else "-"
+            fid = "-"
             bad(f"{label}: running the compiled program raised {type(e).__name__}: {str(e)[:150]}", fid)
             continue
 
